@@ -47,7 +47,15 @@ let int_of_z (x : z) : int = match x with Z0 -> 0 | Zpos p -> int_of_pos p | Zne
 let runners : (string * (z list -> z list)) list = [
   ("queue", run_queue);
   ("header", run_header);
+  ("rf24", run_rf24);
 ]
+
+(* ---------- the world server: one mutable world shared by the SPI shims of a run ---------- *)
+let the_world : world ref = ref (new_world [] [])
+let fate_of_char c = match c with 'D' -> Delivered | 'P' -> PacketLost | 'A' -> AckLost
+                                  | _ -> failwith "bad fate"
+let fates_of_tok t = if t = "-" then [] else List.init (String.length t) (fun i -> fate_of_char t.[i])
+let ints_out (l : z list) = String.concat " " (List.map (fun x -> string_of_int (int_of_z x)) l)
 
 (* ---------- dispatch ---------- *)
 let handle (toks : string list) : string =
@@ -58,6 +66,29 @@ let handle (toks : string list) : string =
       | Some f ->
           String.concat " " (List.map (fun x -> string_of_int (int_of_z x))
                                (f (List.map (fun a -> z_of_int (int_of_string a)) args))))
+  | [ "wnew"; plus; fates ] ->
+      the_world := new_world (List.init (String.length plus) (fun i -> plus.[i] = 'T')) (fates_of_tok fates);
+      "ok"
+  | [ "wspi"; i; mosi ] ->
+      let w, miso = w_spi !the_world (nat_of_int (int_of_string i)) (bytes_of_tok mosi) in
+      the_world := w;
+      tok_of_bytes miso
+  | [ "wce"; i; v ] ->
+      the_world := w_ce !the_world (nat_of_int (int_of_string i)) (v = "1");
+      "ok"
+  | [ "wsnap" ] -> ints_out (List.concat_map snap_radio !the_world.radios)
+  | [ "wsnap"; i ] -> ints_out (snap_radio (get_radio !the_world (nat_of_int (int_of_string i))))
+  | [ "woracle"; fates ] ->
+      the_world := { !the_world with oracle = fates_of_tok fates };
+      "ok"
+  | [ "winject"; i; p; data ] ->
+      let i = nat_of_int (int_of_string i) in
+      the_world := set_radio !the_world i (inject (get_radio !the_world i) (ni p) (bytes_of_tok data));
+      "ok"
+  | [ "wair" ] ->
+      let l = !the_world.air in
+      the_world := { !the_world with air = [] };
+      string_of_int (List.length l) ^ " " ^ ints_out (List.concat_map put_airlog l)
   | [ "valid"; a ] -> tok_of_bool (is_address_valid (ni a))
   | [ "lvl2addr"; l ] -> string_of_int (int_of_n (lvl_2_addr (ni l)))
   | [ "consts"; a ] -> (
